@@ -64,10 +64,10 @@ theorem members_ok (t : TraitItem) (o : Opts) (fs : List TraitFnItem) :
 
 /-- since fix 58615e0 every attribute of the entraited trait is kept, in order, after the macro's own -/
 theorem attrs_kept (opts : Opts) (t : TraitItem) (vis ident tg sup fns) :
-    t.attrs.all (fun a => (genTraitDef opts .trait .generic t.attrs vis ident tg sup fns .rawTrait).attrs.contains a) = true := by
-  simp only [genTraitDef, reappliedSubs_rawTrait, List.all_eq_true, List.contains_iff_mem, decide_eq_true_eq]
-  intro a ha
-  exact List.mem_append_right _ ha
+    t.attrs.isSublist (genTraitDef opts .trait .generic t.attrs vis ident tg sup fns .rawTrait).attrs = true := by
+  simp only [genTraitDef, reappliedSubs_rawTrait]
+  rw [List.isSublist_iff_sublist]
+  exact List.sublist_append_of_sublist_right (List.Sublist.refl _)
 
 theorem T_C09_partial (v : Variant) (attr : Toks) (item : Item) (out : Out)
     (h : expand v attr item = .ok out) : P_C09 v attr item out.view = true := by
